@@ -184,7 +184,9 @@ func bsigRun(args []string) error {
 	s3 := &bsigner{"s3", []*keyCert{newKeyCert("p256", []string{hostA, hostB}, 0), newKeyCert("p256", []string{"ca.example"}, 50)}, map[string]bool{hostA: true, hostB: true}}
 	// s4: host A only, but with a two-certificate chain, so that a later signer's authority index differs from its subset index
 	s4 := &bsigner{"s4", []*keyCert{newKeyCert("p384", []string{hostA}, 0), newKeyCert("p256", []string{"ca2.example"}, 30)}, map[string]bool{hostA: true}}
-	seqs := [][]*bsigner{{s1}, {s2}, {s3}, {s1, s2}, {s2, s1}, {s1, s3}, {s3, s1}, {s2, s3}, {s1, s2, s3}, {s4}, {s4, s2}, {s2, s4}, {s4, s2, s1}}
+	// s5: a certificate for a host the bundle has no exchange of - its vouched subset is empty (legal: it vouches for nothing)
+	s5 := &bsigner{"s5", []*keyCert{newKeyCert("p256", []string{"z.example"}, 0)}, map[string]bool{"z.example": true}}
+	seqs := [][]*bsigner{{s1}, {s2}, {s3}, {s5, s1}, {s1, s2}, {s2, s1}, {s1, s3}, {s3, s1}, {s2, s3}, {s1, s2, s3}, {s4}, {s4, s2}, {s2, s4}, {s4, s2, s1}, {s5}, {s2, s5}}
 	ctx := &bsigCtx{}
 	week := int64(7 * 24 * 3600)
 	for _, ver := range []bversion.Version{bversion.VersionB1, bversion.VersionB2} {
